@@ -440,6 +440,22 @@ impl C07 {
                 judge(ctx, "InformationRequestHeaderTag::new", &*t, &exp, h::InformationRequestHeaderTag::ID as u16 == 1, t.requests() == &reqs[..] && t.size() as usize == exp.len() && t.flags() == fl, &J::u(len as u64));
             }
         }
+        // the bare headers
+        {
+            let (ty, sz) = (r.u32(), r.u32());
+            let hd = TagHeader::new(TagType::from(ty), sz);
+            let raw = unsafe { core::slice::from_raw_parts(&hd as *const _ as *const u8, 8) };
+            ctx.eval();
+            if le32(raw, 0) != ty || le32(raw, 4) != sz || u32::from(hd.typ) != ty || hd.size != sz {
+                ctx.violation("TagHeader::new:image", J::s(format!("type {} size {} -> {}", ty, sz, hex(raw))));
+            }
+            let hh = h::HeaderTagHeader::new(h::HeaderTagType::Framebuffer, h::HeaderTagFlag::Optional, sz);
+            let raw = unsafe { core::slice::from_raw_parts(&hh as *const _ as *const u8, 8) };
+            ctx.eval();
+            if le16(raw, 0) != 5 || le16(raw, 2) != 1 || le32(raw, 4) != sz || hh.size() != sz || hh.typ() != h::HeaderTagType::Framebuffer || hh.flags() != h::HeaderTagFlag::Optional {
+                ctx.violation("HeaderTagHeader::new:image", J::s(hex(raw)));
+            }
+        }
         // the terminator: type 0, flags 0, size 8
         let t = h::EndHeaderTag::new();
         judge(ctx, "EndHeaderTag::new", &t, &Img::hdr(0, 0).done(), h::EndHeaderTag::ID as u16 == 0, t.typ() == h::HeaderTagType::End && t.size() == 8, &J::Null);
